@@ -1,6 +1,7 @@
 package main
 
 import (
+	"go/token"
 	"fmt"
 	"go/types"
 	"sort"
@@ -214,7 +215,7 @@ func (m *vmModel) baseOf(fn *ssa.Function) ssa.Value {
 // cellAddr: addr is &base.<cell> → cell name.
 func (m *vmModel) cellAddr(addr ssa.Value, base ssa.Value) string {
 	fa, ok := addr.(*ssa.FieldAddr)
-	if !ok || fa.X != base {
+	if !ok || !sameBase(fa.X, base) {
 		return ""
 	}
 	return m.cell[fa.Field]
@@ -232,7 +233,7 @@ func (m *vmModel) cellLoad(v ssa.Value, base ssa.Value) string {
 // evalRole classifies a call on base: "expr", "let", "stmt", "op" for evaluators, "" otherwise.
 func (m *vmModel) evalRole(c ssa.CallInstruction, base ssa.Value) string {
 	callee := staticCallee(c)
-	if callee == nil || len(c.Common().Args) == 0 || c.Common().Args[0] != base {
+	if callee == nil || len(c.Common().Args) == 0 || !sameBase(c.Common().Args[0], base) {
 		return ""
 	}
 	switch callee {
@@ -255,7 +256,7 @@ func (m *vmModel) calleeOnBase(c ssa.CallInstruction, base ssa.Value) *ssa.Funct
 		return nil
 	}
 	for _, a := range c.Common().Args {
-		if a == base {
+		if sameBase(a, base) {
 			return callee
 		}
 	}
@@ -407,4 +408,30 @@ func (m *vmModel) isEvaluatorShape(fn *ssa.Function) bool {
 		}
 	}
 	return n >= 4
+}
+
+// sameBase: v is the record value base, or a reload of it from the slot it was spilled to (a receiver captured by a closure,
+// e.g. a deferred func literal, lives in memory and every use reloads it).
+func sameBase(v, base ssa.Value) bool {
+	if v == base {
+		return true
+	}
+	u, ok := v.(*ssa.UnOp)
+	if !ok || u.Op != token.MUL {
+		return false
+	}
+	al, ok := u.X.(*ssa.Alloc)
+	if !ok {
+		return false
+	}
+	n := 0
+	for _, ref := range *al.Referrers() {
+		if st, ok := ref.(*ssa.Store); ok && st.Addr == ssa.Value(al) {
+			n++
+			if st.Val != base {
+				return false
+			}
+		}
+	}
+	return n == 1
 }
